@@ -215,6 +215,9 @@ func c13Run(c *core.Ctx) {
 		}
 		def := gen.RenderDefault(toks)
 		gen.Layouts(toks, kk, gaps, func(text string, devs []gen.Dev) {
+			if c.Tick() {
+				return
+			}
 			c.Cur(text)
 			c.Inc("inputs")
 			c.Inc("layout_texts")
